@@ -19,7 +19,7 @@ def setup(run, cfgs=("std",)):
     return deps, vmon
 
 
-def standard_flow(run, units, deps, vmon, profiles=("debug",), tag="s", nshards=None, extra_head="", timeout=1500):
+def standard_flow(run, units, deps, vmon, profiles=("debug",), tag="s", nshards=None, extra_head="", timeout=1500, extra_args=()):
     """compile + run + merge; returns samples_by_unit."""
     index = {u.name: u for u in units}
     all_samples = {}
@@ -27,7 +27,7 @@ def standard_flow(run, units, deps, vmon, profiles=("debug",), tag="s", nshards=
         prof = shards.PROFILES[pn]
         bins = shards.compile_units(run, units, deps, prof, vmon, tag, extra_head=extra_head, nshards=nshards)
         run.count("shards/%s" % pn, len(bins))
-        args = [str(run.seed), run.tier, pn]
+        args = [str(run.seed), run.tier, pn] + list(extra_args)
         s = shards.run_shards(run, bins, index, args=args, timeout=timeout)
         for k, v in s.items():
             all_samples.setdefault(k, []).extend(v)
